@@ -82,9 +82,15 @@ impl<T: Qcow2IoOps> Qcow2Dev<T> {
             return Ok(0);
         }
 
-        t.set_offset(Some(off));
         let buf = unsafe { std::slice::from_raw_parts_mut(t.as_mut_ptr(), t.byte_size()) };
-        self.call_read(off, buf).await
+        let res = self.call_read(off, buf).await;
+
+        // the table is loaded only if it is read successfully, otherwise
+        // the next caller has to load it again
+        if res.is_ok() {
+            t.set_offset(Some(off));
+        }
+        res
     }
 
     pub(crate) async fn load_refcount_table(&self) -> Qcow2Result<usize> {
